@@ -1266,14 +1266,14 @@ def check_rust_codec(prop, ctx):
         modes.append("encx")        # every value of every type with at most 12 variable bits
     if ctx.tier == "thorough" and prop in ("C04", "C01"):
         modes.append("decx")        # every byte string of length <= 2 for the bit-field-only descriptions
-    small = ("bf_1_", "bf_2_", "bf_3_", "bf_4_", "bf_8", "w1_", "w2_", "w7_", "w8_", "w9_", "enum_e8", "enum_e3", "enum_er", "enum_eo",
-             "enum_ec", "pl_siz8", "pl_siz3", "arr_u8_cnt", "arr_e8_siz", "opt_shared", "inh_children", "inh_by_size")
+    # (every string of length <= 2 is 65 793 vectors per type and endianness: a handful of descriptions, one per family)
+    small = ("bf_4_4", "bf_1_1_6", "w9_", "enum_er", "enum_eo", "pl_siz3", "arr_u8_cnt", "opt_shared", "inh_by_size")
     skipped = 0
     kinds = {}
     nvec = nusable = 0
     # the units are worked through in slices: vectors, observations and judgements of one slice are dropped before the
     # next one starts (the thorough tier does not fit in memory otherwise)
-    step = 200
+    step = 200 if ctx.tier == "quick" else 60
     for lo in range(0, len(units), step):
         chunk = set(u.name for u in units[lo:lo + step])
         vecs, info = gen_vectors(ctx, units, modes, rep, nshort=2, nbits=12, select=lambda u, t: u.name in chunk,
